@@ -371,11 +371,44 @@ def check_tables(ctx, F, c, I, tb):
                   f"{b.path}: stores a provisional constant into the safety memo cell inside a recursive evaluation (results of inner types computed from it would be memoised: the decision becomes order dependent)",
                   instance=f"{b.path}: no provisional constant store in a recursive evaluator")
         if not recursive:
-            ctx.check(repeat_until_stable(b, cfgb, bb), "R8.3", b.loc(s["ln"]), f"{b.path}|fixpoint-loop",
+            stable = repeat_until_stable(b, cfgb, bb)
+            if not stable:
+                # the pass may live in a private method driven by a loop in its caller (`while self.pass_once() {}`):
+                # decided on every caller with the pass spliced in
+                stable = stable_in_callers(c, b, j, s)
+            ctx.check(stable, "R8.3", b.loc(s["ln"]), f"{b.path}|fixpoint-loop",
                       f"{b.path}: the computed safety is stored outside a repeat-until-stable loop (a flag set next to the store must decide whether the evaluation is repeated): inner types would keep values computed from not-yet-final neighbours",
                       instance=f"{b.path}: store inside a loop repeated while something changed")
     # readers do not compute
     return
+
+
+def stable_in_callers(c, b, j, s, depth=0, origin=None):
+    from .. import inline
+    origin = origin or b.id
+    if b.d.get("vis") == "pub" or depth > 2:
+        return False
+    callers = [x for x in c.bodies if x.id != b.id and x.kind in ("fn", "assoc_fn") and any(t["call"].get("id") == b.id for _, t in x.calls())]
+    if not callers:
+        return False
+    for x in callers:
+        eb = inline.expand(c, x, depth=depth + 1, pred=lambda cb: cb.d.get("vis") != "pub")
+        cfg = CFG(eb)
+        sites = []
+        for i, blk in enumerate(eb.blocks):
+            if j == "T":
+                t = blk["t"]
+                if "call" in t and t.get("inl") == origin and t.get("ln") == s["ln"] and t["call"]["name"] in ("replace", "set", "swap", "replace_with"):
+                    sites.append(i)
+            else:
+                for st in blk["s"]:
+                    if st.get("inl") == origin and st.get("ln") == s["ln"] and "d" in st and not isinstance(st["d"], int) and "*" in st["d"]["p"]:
+                        sites.append(i)
+        if not sites:
+            return False
+        if not all(repeat_until_stable(eb, cfg, i) or stable_in_callers(c, x, j, s, depth + 1, origin) for i in sites):
+            return False
+    return True
 
 
 def repeat_until_stable(b, cfg, store_bb):
